@@ -50,8 +50,8 @@ CHECKS["C18"] = {
     "engine": "E1 lattice explorer",
     "jobs": lambda tier: per_dim("C18.cpp", "C18", tier, quick=(1,), thorough=(1, 3)),
     "rule": "unit = (order, ratio r, alphabet, N, duration word); durations {1/sqrt r, sqrt r} (all 2^N placements) and {1/sqrt r, 1, sqrt r} (all 3^N); every unit computes, in long double from the published coefficients, the scaled residual of every defining equation (interpolation, boundary state k, continuity of derivative k) for the full data basis + generic data; non-trivial = the word contains both the shortest and the longest letter (ratio actually attained)",
-    "bounds": {"quick": "3 orders x DIM 1 x r in {2,4,8,16,32,50,64,100} x (N 2..8 all 2^N words + N 2..4 all 3^N words) x full data basis",
-               "thorough": "3 orders x DIM {1,3} x r in {2,4,8,16,32,50,64,100} x (N 2..10 all 2^N words + N 2..6 all 3^N words) x full data basis"},
+    "bounds": {"quick": "3 orders x DIM 1 x r in {2,4,8,16,32,50,64,100} x (N 2..8 all 2^N words + N 2..4 all 3^N words at scale 1; N 2..7 two-letter words at scales 2^-6, 2^6, 2^10) x full data basis",
+               "thorough": "3 orders x DIM {1,3} x r in {2,4,8,16,32,50,64,100} x (N 2..12 all 2^N words + N 2..7 all 3^N words at scale 1; N 2..7 two-letter words at scales 2^-6, 2^6, 2^10) x full data basis"},
     "thresholds": {"scaled residual (the property's own)": 1e-3},
     "assumptions": ASSUME_COMMON,
     "technique": TECH_E1 + "; oracle = long-double residuals of the defining equations; failures matched tuple-by-tuple against known_findings.txt",
@@ -165,8 +165,8 @@ CHECKS["C10"] = {
 CHECKS["C20"] = {
     "engine": "E1 lattice explorer",
     "jobs": lambda tier: [job("C20.cpp", "C20")],
-    "rule": "(1) unit = (start in {0,0.3,-1.5,100}, length in {0,2^-20,0.5,1,2.5,10}, residue class of k): every dt = length/k for k = 1..1024 (quick) / 4096 (thorough), each also x(1+-2^-40) and x(1+-1e-7), plus dt in {1.5 length, 1e-3, 0.01, 0.1, 0.3}: first sample = start exactly, sample i = start + i dt, strictly increasing, none beyond end+1e-6, last within 1e-6 of end, end appended iff short by > 1e-6, final step <= dt; (2) unit = cubic/quintic/septic trajectory (DIM 1 and 3, N in {1,2,3,5}, duration words): batch = pointwise (bitwise), getTrajectoryLength (3 overloads; full range, sub-range, zero length; 4 steps) = left Riemann sum of speed and within dt*int|a| of the Gauss-Legendre arc length; (3) unit = factory call zero()/constant() on 6 breakpoint vectors x coefficient count 1..12: initialised on the breakpoints, all derivatives at all probe times exactly 0 / (v,0,0,...); non-trivial = non-degenerate interval / valid breakpoints",
-    "bounds": {"quick": "384 sequence units (about 123k sequences), 9 duration words per (order, DIM, N), 4 factory instantiations", "thorough": "384 sequence units (about 492k sequences), all 3^N duration words for N in {1,2,3,5}, 4 factory instantiations"},
+    "rule": "(1) unit = (start in {0,0.3,-1.5,100,5000,-7000}, length in {0,2^-20,0.5,1,2.5,10}, residue class of k): every dt = length/k for k = 1..1024 (quick) / 16384 (thorough), each also x(1+-2^-40) and x(1+-1e-7), plus, for k <= 512, dt = (length - rem)/k for rem in {5e-7,2e-6,2e-5,2e-4,2e-3} (k steps falling short by a chosen remainder), plus dt in {1.5 length, 1e-3, 0.01, 0.1, 0.3}: first sample = start exactly, sample i = start + i dt, strictly increasing, none beyond end+1e-6, last within 1e-6 of end, end appended iff short by > 1e-6, final step <= dt; (2) unit = cubic/quintic/septic trajectory (DIM 1 and 3, N in {1,2,3,5}, duration words): batch = pointwise (bitwise), getTrajectoryLength (3 overloads; full range, sub-range, zero length; 4 steps) = left Riemann sum of speed and within dt*int|a| of the Gauss-Legendre arc length; (2b) PPolyND polylines whose speed jumps at every breakpoint, samples landing exactly on breakpoints: length = left Riemann sum with right-continuous speed; (3) unit = factory call zero()/constant() on 6 breakpoint vectors x coefficient count 1..12: initialised on the breakpoints, all derivatives at all probe times exactly 0 / (v,0,0,...); non-trivial = non-degenerate interval / valid breakpoints",
+    "bounds": {"quick": "384 sequence units (about 123k sequences), 9 duration words per (order, DIM, N), 4 factory instantiations", "thorough": "384 sequence units (about 1.97M sequences), all 3^N duration words for N in {1,2,3,5}, 4 factory instantiations"},
     "thresholds": {"sequence contract": "exact / 1e-6 as stated by the property (borderline band 1e-12 excluded)", "length vs Riemann sum": 1e-12, "length vs true arc length": "dt * integral of |a| + 1e-9 relative"},
     "assumptions": ASSUME_COMMON + ["16-point Gauss-Legendre on 8 sub-intervals per piece as the true arc length"],
     "technique": TECH_E1 + "; every nearly-dividing step k <= 4096 enumerated (the floating-point floor is at risk exactly there)",
@@ -177,7 +177,7 @@ CHECKS["C17"] = {
     "engine": "E1 lattice explorer",
     "jobs": lambda tier: [job("C17.cpp", "C17")],
     "rule": "unit = one exponent of the mantissa/exponent lattice (tau = +-m 2^e, T = m 2^e, 16 four-bit mantissas, e in [-60,19], capped at 1e6) or one exponent of the approach lattices c +- m 2^e, e in [-52,-1], towards each critical point c, or one block of 8192 CONSECUTIVE doubles around a critical point (tau around 0 incl. denormals and both signs, +-1, +-1e6; T around 1, 1e-6, 1e6); at every point: toTime > 0 and equal to the closed form (1e-14), toTime(tau) <= toTime(next double), toTime(tau + 16 ulp) > toTime(tau), backward = g T'(tau) (1e-14) and linear in g, toTau(toTime tau) = tau and toTime(toTau T) = T (1e-12), toTau monotone; one-sided derivatives and difference quotients at the switch; identity map bitwise; non-trivial = every unit",
-    "bounds": {"quick": "2560 lattice points + 2^17 consecutive doubles around each of 8 critical points", "thorough": "2560 lattice points + 2^21 consecutive doubles around each of 8 critical points"},
+    "bounds": {"quick": "2560 lattice points (4-bit mantissas) + approach lattices + 2^17 consecutive doubles around each of 8 critical points", "thorough": "40960 lattice points (8-bit mantissas) + approach lattices + 2^21 consecutive doubles around each of 8 critical points"},
     "thresholds": {"closed form / backward": 1e-14, "round trips": 1e-12, "monotone": "exact between adjacent doubles; strict at 16 ulp"},
     "assumptions": ASSUME_COMMON,
     "technique": "bounded exhaustive enumeration of a floating-point input lattice incl. all consecutive doubles around the branch points, on the real code",
